@@ -21,6 +21,7 @@ mod c04;
 mod c05;
 mod c12;
 mod c01;
+mod c15;
 
 #[global_allocator]
 static GLOBAL: allocrec::Rec = allocrec::Rec;
@@ -40,6 +41,8 @@ fn main() {
     let out_path = &args[4];
     let corpus = args.get(5).cloned();
     util::silence_panics();
+    let _ = util::OUT_PATH.set(out_path.clone());
+    util::watchdog_start();
 
     let mut out = util::Out::new();
     match prop {
@@ -52,6 +55,7 @@ fn main() {
         "C05" => c05::run(&mut out, tier, seed, corpus.as_deref()),
         "C12" => c12::run(&mut out, tier, seed, corpus.as_deref()),
         "C01" => c01::run(&mut out, tier, seed, corpus.as_deref()),
+        "C15" => c15::run(&mut out, tier, seed, corpus.as_deref()),
         "C17" => c17::run(&mut out, tier, seed, corpus.as_deref()),
         "C14" => c14::run(&mut out, tier, seed, corpus.as_deref()),
         "C11" | "C10" => c11::run(&mut out, tier, seed, corpus.as_deref(), prop),
